@@ -10,6 +10,7 @@ import SyslModel.Closure.Proto
 import SyslModel.Indent.Proto
 import SyslModel.DbScript.Proto
 import SyslModel.Ints.Proto
+import SyslModel.SeqDiag.Proto
 
 open Lean (Json)
 open SyslModel
@@ -20,6 +21,7 @@ def dispatch (op : String) (j : Json) : Option Json :=
   else if op.startsWith "indent." then Indent.handle op j
   else if op.startsWith "db." then DbScript.handle op j
   else if op.startsWith "ints." then Ints.handle op j
+  else if op.startsWith "sd." then SeqDiag.handle op j
   else none
 
 def handleLine (line : String) : String :=
